@@ -1,7 +1,7 @@
 (* Correspondence checker for C18: the model (model/Forwarder.v, events are integers) is run on the
    event script the harness drove the real forwarder worker through; the model's trace is compared
    with what the scripted server, the recording sink and the storage observed. *)
-From LR Require Export lib.Base model.Forwarder model.SyslogSink.
+From LR Require Export lib.Base model.Forwarder model.SyslogSink model.Supervisor.
 
 Definition obs_eqb (a b : obs Z) : bool :=
   match a, b with
@@ -25,9 +25,41 @@ Fixpoint sink_calls (l : lg Z) (batches : list (list Z)) : lg Z * list bool :=
                let '(l2, oks) := sink_calls l1 tl in (l2, ok :: oks)
   end.
 
+(* a view: the worker map (name, (state, the worker's descriptor is the forwarder's)) and the descriptors (name, position) *)
+Definition sview : Type := (list (nat * (nat * bool)) * list (nat * nat))%type.
+
+Fixpoint lookup_all {A} (eqb : A -> A -> bool) (a b : list (nat * A)) : bool :=
+  match a with
+  | [] => true
+  | (n, v) :: tl => match Supervisor.lookup n b with Some v' => eqb v v' | None => false end && lookup_all eqb tl b
+  end.
+Definition map_eqb {A} (eqb : A -> A -> bool) (a b : list (nat * A)) : bool :=
+  Nat.eqb (length a) (length b) && lookup_all eqb a b && lookup_all eqb b a.
+Definition wv_eqb (x y : nat * bool) : bool := Nat.eqb (fst x) (fst y) && Bool.eqb (snd x) (snd y).
+Definition view_of (s : sup) : sview := (view_workers s, map (fun '(n, (_, p)) => (n, p)) (view_descs s)).
+Definition view_eqb (a b : sview) : bool := map_eqb wv_eqb (fst a) (fst b) && map_eqb Nat.eqb (snd a) (snd b).
+
+Fixpoint sup_check (s : sup) (evs : list sev) (views : list (option sview)) (i : nat) (sv : list (nat * list (nat * nat))) : bool :=
+  match evs, views with
+  | [], [] => true
+  | e :: etl, v :: vtl =>
+      let s1 := sstep code_marks_failed_start s e in
+      (match v with Some x => view_eqb (view_of s1) x | None => true end) &&
+      (match Supervisor.lookup (S i) sv with
+       | Some st => map_eqb Nat.eqb (map (fun '(n, (_, p)) => (n, p)) (stored s1)) st
+       | None => true
+       end) &&
+      sup_check s1 etl vtl (S i) sv
+  | _, _ => false
+  end.
+
 Inductive case :=
 | KRun (evs : list (ev Z)) (observed : list (obs Z))
-| KSink (q0 : option nat) (dials : list (option (option nat))) (batches : list (list Z)) (oks : list bool) (conns : list (list Z)).
+| KSink (q0 : option nat) (dials : list (option (option nat))) (batches : list (list Z)) (oks : list bool) (conns : list (list Z))
+(* the real supervisor driven step by step: the configuration at the start, the view after init, the events, after every
+   event the view (None = the implementation was already further on when the event was recorded), and the state file
+   (name, position) after the i-th event for every persist *)
+| KSup (c0 : list (nat * nat)) (view0 : sview) (evs : list sev) (views : list (option sview)) (stored_views : list (nat * list (nat * nat))).
 
 Definition check (c : case) : bool :=
   match c with
@@ -35,6 +67,8 @@ Definition check (c : case) : bool :=
   | KSink q0 dials batches oks conns =>
       let '(l, oks') := sink_calls (mkLg (Some q0) dials [[]]) batches in
       list_eqb Bool.eqb oks' oks && list_eqb (list_eqb Z.eqb) (rev (l_recv l)) conns
+  | KSup c0 view0 evs views sv =>
+      view_eqb (view_of (sup0 c0)) view0 && sup_check (sup0 c0) evs views 0 sv
   end.
 
 Definition mismatches (l : list case) : list nat := mismatches_of check l.
